@@ -387,8 +387,14 @@ func (w *c10Worker) runBC(idx uint32, b []byte, prep int, from int, upto int) (f
 		fs = append(fs, r...)
 	}
 	if from <= c10StExecute && (upto == 0 || upto >= c10StExecute) {
+		// prep >= 128 selects a small step limit (prep-128) with the handler's locals and an empty stack: the
+		// step-limit alignment part puts an instruction at every position around the limit
+		lim := c10StepLimit
+		if prep >= 128 {
+			lim, prep = prep-128, 0
+		}
 		r, _, spin := w.step(idx, "bc", c10StExecute, c10VMBudget, 2, func() {
-			m := c10NewVM(prep, c10StepLimit)
+			m := c10NewVM(prep, lim)
 			_, err := m.Execute(b)
 			if err != nil {
 				_ = err.Error()
@@ -422,7 +428,7 @@ func (w *c10Worker) runBC(idx uint32, b []byte, prep int, from int, upto int) (f
 					fs = kept
 					fs = append(fs, c10Finding{Kind: "goroutine", Step: c10StExecute, Key: "vm/async-body-outlives-step-limit",
 						Desc: fmt.Sprintf("Execute (step limit %d) returned, but a goroutine it started for an async body is %s after %.1fs CPU / %.0fs wall: the step limit is not applied to async bodies",
-							c10StepLimit, how, (c10SelfCPU() - cpu0).Seconds(), time.Since(t0).Seconds())})
+							lim, how, (c10SelfCPU() - cpu0).Seconds(), time.Since(t0).Seconds())})
 					return fs, true
 				}
 			}
